@@ -532,7 +532,7 @@ fn mutate_all(rng: &mut Rng, text: &str) -> Option<(String, &'static str)> {
         1 => (text.replace("\"%t", "\"%undefined_t"), "all-tags-undefined"),
         2 => (text.replace(" @output(name: \"o", " @tag(name: \"o").replace("@tag(name: \"t", "@output(name: \"t"), "outputs-and-tags-swapped"),
         3 => (text.replace("    id ", "    idzz ").replace("    name ", "    namezz "), "several-nonexistent-fields"),
-        4 => (text.replace("(lo: ", "(lozz: ").replace("(hi: ", "(hizz: \"s\", hi: "), "bad-edge-parameters"),
+        4 => (text.replace("(lo: ", "(zq: 1, lozz: 2, ab: null, mm: \"x\", lo: ").replace("(hi: ", "(hizz: \"s\", b2: 1, a1: 2, hi: "), "bad-edge-parameters"),
         _ => (text.replace(" @output(name: \"o", " @fold @output(name: \"o").replace("@optional", "@optional @output"), "directives-on-wrong-kind"),
     };
     if t.0 == text { None } else { Some(t) }
@@ -986,14 +986,36 @@ fn c24child(input: &str, output: &str, threads: usize) {
     // ---- phase B: one Arc<Schema> and Arc<IndexedQuery>s shared by all threads
     let schema = Arc::new(Schema::parse(schema_text.as_str()).expect("world schema"));
     let shared: Arc<Vec<Option<Arc<IndexedQuery>>>> = Arc::new(cases.iter().map(|c| parse(&schema, &c.query).ok()).collect());
+    // the read-only queries of the shared schema that adapters use concurrently (Schema::subtypes is what
+    // resolve_coercion_using_schema calls): expected answers computed sequentially on a private Schema
+    let type_names: Arc<Vec<String>> = Arc::new(["Thing", "Item", "Box", "Leaf", "Gadget"].iter().map(|s| s.to_string()).collect());
+    let expected_subtypes: Arc<Vec<Vec<String>>> = {
+        let private = Schema::parse(schema_text.as_str()).expect("world schema");
+        Arc::new(type_names.iter().map(|tn| {
+            let mut v: Vec<String> = private.subtypes(tn).map(|it| it.map(|s| s.to_string()).collect()).unwrap_or_default();
+            v.sort();
+            v
+        }).collect())
+    };
     let barrier = Arc::new(Barrier::new(threads));
     let mut hs = vec![];
     for t in 0..threads {
         let (cases, schema, shared, mm, ops, barrier) = (cases.clone(), schema.clone(), shared.clone(), mismatches.clone(), ops.clone(), barrier.clone());
+        let (type_names, expected_subtypes) = (type_names.clone(), expected_subtypes.clone());
         hs.push(std::thread::spawn(move || -> Vec<(u64, Arc<IndexedQuery>)> {
             barrier.wait();
             let mut produced = vec![];
             let r = catch_unwind(AssertUnwindSafe(|| {
+                for round in 0..400usize {
+                    let i = (round * 3 + t) % type_names.len();
+                    let mut got: Vec<String> = schema.subtypes(&type_names[i]).map(|it| it.map(|s| s.to_string()).collect()).unwrap_or_default();
+                    got.sort();
+                    ops.fetch_add(1, std::sync::atomic::Ordering::Relaxed);
+                    if got != expected_subtypes[i] {
+                        report(&mm, "B-shared", t, u64::MAX, "Schema::subtypes on the shared Arc<Schema> differs from the sequential answer", &format!("{}: {:?}", type_names[i], expected_subtypes[i]), &format!("{:?}", got));
+                        break;
+                    }
+                }
                 for j in 0..n {
                     let k = if t % 2 == 0 { (j + t * 7) % n } else { (2 * n - 1 - j + t * 7) % n }; // a thread-specific visiting order (a permutation)
                     let c = &cases[k];
